@@ -385,6 +385,8 @@ var patterns = []pattern{
 	{`?s "p"@[] ?o . OPTIONAL { ?o "q"@[] ?x }`, []string{"?s", "?o", "?x"}},
 	{`?s "_subject"@[] ?o`, []string{"?s", "?o"}},
 	{`?s ?p ?o . ?s "q"@[] ?x`, []string{"?s", "?p", "?o", "?x"}},
+	{`?s ID ?x "p"@[] ?o`, []string{"?s", "?x", "?o"}},
+	{`?s "p"@[] ?o TYPE ?x`, []string{"?s", "?o", "?x"}},
 }
 
 func has(xs []string, x string) bool {
